@@ -255,4 +255,34 @@ def run(tier):
         callers = sorted({k for k, f in F.fns.items() for bb, t, ck, fr in f.calls() if ck == S_ + name})
         rep.check(callers == [S_ + owner], "flow-level-callers", name, "%s is called from %s: the flow nesting bound is tied to one call per bracket in %s" % (
             name, [short(c) for c in callers], owner), detail=[short(c) for c in callers])
+    # R5: the heap stacks that take over from the call stack grow with the input: the cycle-free core pushes one entry per open collection
+    # (parser states, marks, indents, simple keys, loader document/key stacks).  A fixed-capacity container there (ArrayDeque, ArrayVec,
+    # an array indexed by depth) turns "nesting deeper than N" into a panic or a silent overwrite.  Fixed-capacity containers are allowed
+    # in the look-ahead buffer of BufferedInput only (its capacity is bounded by the scanner's longest look-ahead, not by the input).
+    FIXED = ("arraydeque::", "arrayvec::", "heapless::", "smallvec::")   # smallvec grows, but listed so that a reviewer looks at it
+    n_push = 0
+    for k in sorted(core | {c.key for kk in core if kk in F.fns for c in F.closures_of(kk)}):
+        f = F.fns.get(k)
+        if f is None or not k.startswith(("saphyr_parser::", "saphyr::")):
+            continue
+        for bb, t, ck, fr in f.calls():
+            if not ck:
+                continue
+            nm = ck.rsplit("::", 1)[-1]
+            if nm in ("push", "push_back", "push_front", "insert"):
+                n_push += 1
+            if ck.startswith(FIXED) and nm.startswith(("push", "insert", "try_push", "extend")):
+                rep.check(k.startswith("saphyr_parser::input::buffered::") or "BufferedInput" in k, "nesting-stacks-grow", "%s->%s" % (short(k), short(ck)),
+                          "a function of the pull parser / scanner / loader core pushes onto a fixed-capacity container: input nested (or queued) deeper than its "
+                          "capacity ends in a panic or a lost entry instead of a result", site=site(f, t["sp"]))
+    rep.floor("push/insert calls in the cycle-free core", n_push, 20)
+    for owner in (PARSER, SCANNER, LOADER):
+        adt = F.adts.get(owner)
+        if adt is None:
+            continue
+        for v in adt["variants"]:
+            for fld in v["fields"]:
+                rep.check(not any(x in fld["ty"] for x in FIXED), "nesting-stacks-grow", "%s.%s" % (owner.split("::")[-1], fld["name"]),
+                          "field %s of %s is a fixed-capacity container (%s): whatever is pushed per open collection or per queued token overflows it on deep input"
+                          % (fld["name"], owner.split("::")[-1], fld["ty"][:80]), site=adt["span"]["at"])
     return rep
